@@ -242,6 +242,25 @@ func (c *Ctx) foldCsvRegs(evs []regEvent, sepOf, quoteOf func(ssa.Value) bool, t
 			default:
 				pending = fmt.Sprintf("a registration for the single character %d", lo)
 			}
+		case loK && hiK && lo <= hi:
+			// a constant range that is not the full one: CR / LF inside it take the target; any other
+			// character inside it is an ordinary character that would be treated like them
+			if lo <= 13 && 13 <= hi {
+				final["CR"] = tg
+			}
+			if lo <= 10 && 10 <= hi {
+				final["LF"] = tg
+			}
+			others := hi - lo + 1
+			if lo <= 13 && 13 <= hi {
+				others--
+			}
+			if lo <= 10 && 10 <= hi {
+				others--
+			}
+			if others > 0 && tg != final["other"] {
+				final["other"] = fmt.Sprintf("%s for U+%04X..U+%04X", tg, lo, hi)
+			}
 		case loK && hiK:
 			pending = fmt.Sprintf("a registration for the range %d..%d", lo, hi)
 		default:
